@@ -206,7 +206,9 @@ def run_property(prop, tier, seed=0, only=None, jobs=None, verbose=True):
                 rec["final"] = st  # UNKNOWN / PRE_UNSAT -> inconclusive
             if not job.q.get("no_twin"):
                 tq = dict(job.q)
-                tq["timeout"] = min(float(job.q.get("timeout", 60)), float(job.q.get("twin_timeout", 40)))
+                main_t = float(job.q.get("timeout", 60))
+                tq["timeout"] = min(main_t, float(job.q.get("twin_timeout", max(40.0, main_t / 3))))
+                tq["per_path_timeout"] = float(job.q.get("per_path_timeout", max(10.0, main_t / 4)))  # a slow single path must not look vacuous
                 pending.append(Job(tq, twin=True))
 
         def finish_twin(job, res):
